@@ -1,14 +1,14 @@
 #!/bin/sh
-# tools/seeded_parallel.sh <N> <file with seeded dir names> : run tools/seeded_all.py over N scratch worktrees of /repo HEAD in parallel
+# tools/seeded_parallel.sh <N> <file with seeded dir names> [tag] : run tools/seeded_all.py over N scratch worktrees of /repo HEAD in parallel
 # (each worker patches its OWN worktree: VF_REPO); logs in /var/tmp/seedpar-<i>.log; the worktrees are removed at the end
-N=$1; LIST=$2
+N=$1; LIST=$2; TAG=${3:-}
 i=0
 while [ $i -lt $N ]; do
-  W=/tmp/seedwt-$i
+  W=/tmp/seedwt$TAG-$i
   git -C /repo worktree remove --force $W >/dev/null 2>&1
   sh /verif/tools/mkworktree.sh $W >/dev/null
-  awk -v n=$N -v k=$i 'NR % n == k' $LIST > /var/tmp/seedpar-$i.txt
-  ( cd /verif && VF_REPO=$W /venv/bin/python -u tools/seeded_all.py $(cat /var/tmp/seedpar-$i.txt | tr '\n' ' ') > /var/tmp/seedpar-$i.log 2>&1; git -C /repo worktree remove --force $W ) &
+  awk -v n=$N -v k=$i 'NR % n == k' $LIST > /var/tmp/seedpar$TAG-$i.txt
+  ( cd /verif && VF_REPO=$W /venv/bin/python -u tools/seeded_all.py $(cat /var/tmp/seedpar$TAG-$i.txt | tr '\n' ' ') > /var/tmp/seedpar$TAG-$i.log 2>&1; git -C /repo worktree remove --force $W ) &
   i=$((i+1))
 done
 wait
